@@ -100,6 +100,9 @@ class Sym:
 
 # calls whose result changes between two evaluations with the same arguments
 STATEFUL = ("PyDict_Next(",)
+# dictionary lookups: their result reflects the heap at the time of the call
+LOOKUPS = {"PyDict_GetItem", "PyDict_GetItemWithError", "dict_getitem"}
+LOOKUP_TEXTS = ("dict_getitem(", "PyDict_GetItem(", "PyDict_GetItemWithError(")
 
 
 class SymPath:
@@ -126,9 +129,26 @@ class SymPath:
 
     def feasible(self):
         """no atom text with contradictory truth values, constant atoms
-        folded"""
+        folded.  A dictionary lookup that is *evaluated again* after a call
+        that runs Python code may give a different answer (`retry` after
+        add_trait): atoms are keyed by their text and by the epoch in which
+        each lookup they contain was last evaluated, so a value kept in a
+        local stays consistent while a repeated lookup may flip."""
+        from .capi import API
         seen = {}
-        for text, truth, nid in self.atoms:
+        epoch = 0
+        eval_epoch = {}
+        for it in self.trace:
+            if it[0] == "call":
+                c = it[1]
+                if c in LOOKUPS:
+                    eval_epoch[it[3]] = epoch
+                elif (c in API and API[c]["python"]) or c.startswith("->"):
+                    epoch += 1
+                continue
+            if it[0] != "atom":
+                continue
+            text, truth = it[1], it[2]
             if not isinstance(truth, bool):
                 continue
             c = _fold(text)
@@ -136,7 +156,11 @@ class SymPath:
                 return False
             if any(f in text for f in STATEFUL):
                 continue        # iterator-like call: may legitimately flip
-            if seen.setdefault(text, truth) != truth:
+            key = text
+            if eval_epoch and any(l in text for l in LOOKUP_TEXTS):
+                key = (text, tuple(sorted((L, e) for L, e in eval_epoch.items()
+                                          if L in text)))
+            if seen.setdefault(key, truth) != truth:
                 return False
         return True
 
